@@ -269,6 +269,12 @@ def day_list(r, n, base=(2021, 1, 20), span=8, sorted_=None, repeat=0.15):
     if n > 1 and r.random() < repeat: days[r.randrange(n)] = days[r.randrange(n)]
     return [(d.year, d.month, d.day) for d in days]
 
+def note_text(r):
+    """free text of a note; one in five carries characters that mean something to a formatter, a template or a shell (%, braces, backslash, quotes)"""
+    t = word(r) + " " + word(r)
+    if r.random() < 0.2: t += " " + r.choice(["18%", "100 %", "%d", "%s%s", "50%!", "{{.}}", "\\n", "a%20b", "%!(EXTRA)", "'q'", "$HOME", "%v %"])
+    return t
+
 def log(r, foods, n_days=None, layout="2006/01/02", envelope=False, notes=0.15, days=None):
     """items of a log: days (any order, repeated dates), repeated foods in a day, empty days, notes"""
     if days is None: days = day_list(r, n_days if n_days is not None else r.randint(0, 5))
@@ -279,7 +285,7 @@ def log(r, foods, n_days=None, layout="2006/01/02", envelope=False, notes=0.15, 
         used = []
         pool = foods if k < 10 else foods + [word(r, 3, 8) for _ in range(k)]
         for _ in range(k):
-            if r.random() < notes: items.append(("note", r.choice([None, word(r)]), word(r) + " " + word(r)))
+            if r.random() < notes: items.append(("note", r.choice([None, word(r)]), note_text(r)))
             f = (used[0] if r.random() < 0.4 else r.choice(used)) if used and r.random() < 0.25 else r.choice(pool)
             used.append(f)
             items.append(("entry", f, number(r, envelope)))
